@@ -350,6 +350,33 @@ pub fn run(ctx: &Ctx) -> Report {
     });
     acc.into_report(&mut rep, "S1_all_sequences_len_le_3");
 
+    // ------------------------------------------------------------ S1h: total size declared first, then all pairs x last form
+    // (the declaration must not change the hash, whichever update form delivers the last byte)
+    {
+        let starts: Vec<u64> = vec![0, 113];
+        let acc = par_shards(starts.len() * na, |i, acc| {
+            let zp = starts[i / na];
+            let a = &env.alpha[i % na];
+            for b in env.alpha.iter() {
+                for (k, &f2) in FORMS.iter().enumerate() {
+                    let f1 = FORMS[(k + i) % FORMS.len()];
+                    let chunks = vec![Chunk { word: a.1.clone(), count: 1, form: f1 }, Chunk { word: b.1.clone(), count: 1, form: f2 }];
+                    let total = zp + (a.1.len() + b.1.len()) as u64;
+                    let c = case_json(zp, &chunks, Some(total));
+                    acc.evaluations += 1;
+                    acc.nontrivial += 1;
+                    if let Err(m) = run_case(&c) {
+                        acc.violation(format!("{} declared={} forms={}/{}", sig("S1h", zp, &chunks, &|w| env.name(w)), total, form_name(f1), form_name(f2)), m, c);
+                    }
+                }
+            }
+            if i == 0 {
+                acc.sample(case_json(zp, &[Chunk { word: a.1.clone(), count: 1, form: Form::Byte }], Some(zp + a.1.len() as u64)));
+            }
+        });
+        acc.into_report(&mut rep, "S1h_total_declared_first_all_pairs_x_every_last_form");
+    }
+
     // ------------------------------------------------------------ S2: run-structured sequences
     let counts: [usize; 9] = [1, 2, 31, 32, 33, 63, 64, 65, 66];
     let counts3: Vec<usize> = if thorough { counts.to_vec() } else { vec![1, 32, 65] };
